@@ -527,7 +527,7 @@ class Facts:
             if required:
                 raise AnchorMissing('function %s not found' % path)
             return None
-        return l[0]
+        return self._v(l[0])
 
     def fns_where(self, pred):
         return [f for f in self.fns if pred(f)]
@@ -540,7 +540,7 @@ class Facts:
         out = [f for f in self.fns if r.search(f.path) and (not lib_only or f.crate == 'renoir')]
         if not out and required:
             raise AnchorMissing('no function matches /%s/' % regex)
-        return out
+        return [self._v(f) for f in out]
 
     def one(self, regex):
         out = self.find(regex)
@@ -560,8 +560,8 @@ class Facts:
         if len(out) > 1 and trait is None:
             inh = [f for f in out if not f.impl_trait]
             if len(inh) == 1:
-                return inh[0]
-        return out[0]
+                return self._v(inh[0])
+        return self._v(out[0])
 
     def impls_of(self, trait, lib_only=True):
         return [i for i in self.impls if i.get('trait') == trait and (not lib_only or i['crate'] == 'renoir')]
@@ -573,12 +573,30 @@ class Facts:
             if lib_only and f.crate != 'renoir':
                 continue
             if f.kind == 'assoc' and f.impl_trait == trait and f.name == name:
-                out.append(f)
+                out.append(self._v(f))
         return out
 
     def closures_of(self, fn):
-        """closure bodies whose typeck root is `fn` (same crate)"""
-        return [g for g in self.fns if g.kind == 'closure' and g.root == fn.path and g.crate == fn.crate]
+        """closure bodies whose typeck root is `fn` (same crate); for an inlined view also those of the inlined helpers"""
+        roots = {fn.path} | set(getattr(fn, 'inlined_from', ()))
+        return [g for g in self.fns if g.kind == 'closure' and g.root in roots and g.crate == fn.crate]
+
+    auto_inline = os.environ.get('NOIR_INLINE', '1') != '0'
+
+    def _v(self, fn):
+        """the view handed to rules by the lookup functions: private same-type / same-module helpers inlined"""
+        if fn is None or not self.auto_inline or fn.crate != 'renoir' or getattr(fn, 'original', None) is not None:
+            return fn
+        return self.inl(fn, mode='self')
+
+    def inl(self, fn, mode='all'):
+        """the view of `fn` with private same-type / same-module helpers inlined (see inline.py); cached"""
+        c = self.__dict__.setdefault('_inl_cache', {})
+        k = (id(fn), mode)
+        if k not in c:
+            from .inline import inline_fn
+            c[k] = (fn, inline_fn(self, fn, mode=mode))
+        return c[k][1]
 
     def family(self, fn):
         return [fn] + self.closures_of(fn)
